@@ -1,0 +1,68 @@
+//go:build verif
+
+package verifhook
+
+// Node is a read-only copy of a directive.
+type Node struct {
+	Kind         string   `json:"kind"`
+	Keyword      string   `json:"keyword"`
+	File         string   `json:"file"`
+	Begin        int      `json:"begin"`
+	Named        []string `json:"named,omitempty"` // name, value, name, value, ... sorted by name
+	Unnamed      []string `json:"unnamed,omitempty"`
+	Annotation   string   `json:"annotation,omitempty"`
+	Explicit     bool     `json:"explicit,omitempty"`
+	HasBody      bool     `json:"hasBody,omitempty"`
+	BodyFile     string   `json:"bodyFile,omitempty"`
+	BodyBegin    int      `json:"bodyBegin,omitempty"`
+	BodyEnd      int      `json:"bodyEnd,omitempty"`
+	ParentIsNil  bool     `json:"parentIsNil"`
+	ParentBegin  int      `json:"parentBegin,omitempty"`
+	ParentFile   string   `json:"parentFile,omitempty"`
+	Children     []*Node  `json:"children,omitempty"`
+	ChildrenNull bool     `json:"childrenNull,omitempty"`
+}
+
+// Observers. They have to be set before the library is used and must not be
+// changed while it works.
+var (
+	// OnFileAccess is called right before the library touches the file system.
+	OnFileAccess func(op, path string)
+
+	// OnScanStep is called before the scanner evaluates a byte. pc is the entry
+	// of the state function.
+	OnScanStep func(pc uintptr, c byte, index int, file string)
+
+	// OnPhase is called after a phase of the build finished successfully.
+	OnPhase func(phase string, roots []*Node)
+
+	// OnYield is called at points where a lazily initialised shared state is
+	// about to be touched.
+	OnYield func(point string)
+)
+
+func FileAccess(op, path string) {
+	if f := OnFileAccess; f != nil {
+		f(op, path)
+	}
+}
+
+func ScanStep(pc uintptr, c byte, index int, file string) {
+	if f := OnScanStep; f != nil {
+		f(pc, c, index, file)
+	}
+}
+
+func ScanStepEnabled() bool { return OnScanStep != nil }
+
+func Phase(phase string, roots func() []*Node) {
+	if f := OnPhase; f != nil {
+		f(phase, roots())
+	}
+}
+
+func Yield(point string) {
+	if f := OnYield; f != nil {
+		f(point)
+	}
+}
